@@ -84,12 +84,16 @@ class Readout:
             self._time_domain_simulation = False
         elif times_from_file:
             self._times = load_table(times_from_file).to_numpy(dtype=float).flatten()
+        elif isinstance(times, np.ndarray):
+            self._times = np.array(times, dtype=float)
         elif times:
             self._times = np.array(eval_range(times), dtype=float)
         else:
             raise ValueError("Sampling times not specified.")
 
-        if np.any(self._times == 0):
+        if self._times.ndim != 1 or self._times.size == 0:
+            raise ValueError("Readout times must be a non-empty 1D sequence.")
+        elif np.any(self._times == 0):
             raise ValueError("Readout times should be non-zero values.")
         elif not start_time < self._times[0]:
             raise ValueError("Readout times should be greater than start time.")
